@@ -36,6 +36,16 @@ Example label_example :
   m_label_cmp [91] [97] = Lt /\ m_label_hash [65;0] = [2;97;0].
 Proof. vm_compute. auto. Qed.
 
+(* ---- the lower-casing of the model (Base/Bytes.lower) is std's definition
+   of u8::to_ascii_lowercase, on every octet *)
+Theorem lower_is_std : forall b, b < 256 -> lower b = std_to_ascii_lowercase b.
+Proof.
+  assert (H : forallb (fun n => lower (N.of_nat n) =? std_to_ascii_lowercase (N.of_nat n)) (seq 0 256) = true)
+    by (vm_compute; reflexivity).
+  intros b Hb. rewrite forallb_forall in H. specialize (H (N.to_nat b)).
+  rewrite N2Nat.id in H. apply N.eqb_eq. apply H. apply in_seq. lia.
+Qed.
+
 (* ---- composed orderings of labels are the octet order of their wire forms *)
 
 Lemma m_label_composed_unfold a b :
